@@ -25,6 +25,7 @@ type Result struct {
 	Hang     bool
 	Steps    int // scanner loop restarts + Lex calls
 	LexCalls int
+	ErrAtLex []int // number of Lex calls made when each error was delivered
 	Err      error
 	Mutated  bool // the input buffer was modified
 }
@@ -75,7 +76,10 @@ func parseNoCopy(buf, src []byte, v *version.Version, withCallback bool) (res Re
 	}()
 	cfg := conf.Config{Version: v}
 	if withCallback {
-		cfg.ErrorHandlerFunc = func(e *errors.Error) { res.Errs = append(res.Errs, e) }
+		cfg.ErrorHandlerFunc = func(e *errors.Error) {
+			res.Errs = append(res.Errs, e)
+			res.ErrAtLex = append(res.ErrAtLex, res.LexCalls)
+		}
 	}
 	res.Root, res.Err = parser.Parse(buf, cfg)
 	if res.Root != nil && isNilVertex(res.Root) {
